@@ -1,23 +1,52 @@
 """C03 - VarInt/VarLong decoding is bounded; encoding terminates, canonical."""
 import io
+import socket
 import sys
 
 from vf.runner import use_repo, ToolError
 from vf.refproto import codec as ref
+from vf import explore, interleave
 
 LEVEL = 'exploration'
 RULE = ('Decoding: every byte string of length <= 2 (quick) / <= 3 (thorough) '
         'and every continuation-bit shape of length 1..13 (terminated or not) '
         'with uniform septets {00,01,7F} or one distinguished septet per '
         'position, followed by 0-2 trailing bytes, plus every strict prefix '
-        'of each shape; for VarInt and VarLong.  Encoding: every n < 2^16 '
+        'of each shape; for VarInt and VarLong, read from a BytesIO (shapes: '
+        'from an instrumented stream that counts read calls).  Stream kinds: '
+        'every terminated encoding of 1..6 bytes with uniform septets '
+        '{7F,01,55}, followed by the sentinel byte a5, is also read from an '
+        'io.BufferedReader over a raw stream and from the unbuffered raw '
+        'stream itself (short reads) with the bytes handed out in EVERY '
+        'segmentation (all compositions of the 2..7 bytes into segments), and '
+        'every strict prefix of those encodings in every segmentation (must '
+        'raise); every uniform shape of 7..13 bytes (thorough: every shape of '
+        '1..13 bytes) + sentinel in every 2-segment cut on both stream kinds; '
+        'the 7F encodings of 1..6 bytes in every segmentation, their '
+        'prefixes, and the 10- and 11-byte shapes in every 2-segment cut also '
+        'through a real socket.socketpair() read with makefile("rb") and '
+        'makefile("rb", 0), each recv delivering exactly one segment.  '
+        'Encoding: every n < 2^16 '
         '(quick) / 2^21 (thorough), every 2^k-1, 2^k, 2^k+1 for k <= 77, a '
         'seed-derived set, and negatives under a step horizon.  A case is '
         'non-trivial unless it is the empty string; all cases are distinct '
         'by construction (enumerated without repetition), counted per '
-        'generator.')
+        'generator.  Concurrency: every pair of 11 operations (VarInt.send, '
+        'VarLong.send, VarInt.read, VarLong.read, VarInt.size each with two '
+        'multi-byte values, VarLong.size; so every pair of kinds and the same '
+        'kind with two values) is run by two threads under the controlled '
+        'scheduler with every source line of types/basic.py and '
+        'types/utility.py a scheduling point, all schedules with at most 1 '
+        '(thorough: 2) preemptions; each thread must observe the reference '
+        'result, which is what the operation gives alone, also afterwards; a '
+        'send is observed both as the bytes copied at each socket.send() '
+        'call and as the objects passed to send() read after the operation '
+        'returned.')
 ASSUMPTIONS = ['non-termination is judged by a horizon of 20000 traced line '
-               'events per call (a correct encoder needs < 100)']
+               'events per call (a correct encoder needs < 100)',
+               'the logical position of a stream after decoding is what a '
+               'read-to-end on the same stream object still returns (a '
+               'buffered reader may have fetched more from its raw stream)']
 
 HORIZON = 20000
 
@@ -80,41 +109,155 @@ def expect(data, max_bytes):
     return ('raise', len(data))      # end of stream inside the number
 
 
-def check_decode(ctx, tname, data, counting=False):
+class SegRaw(io.RawIOBase):
+    """Raw stream that hands out its bytes segment by segment: one readinto
+    never crosses a segment boundary (short reads), EOF after the last."""
+
+    def __init__(self, segs):
+        io.RawIOBase.__init__(self)
+        self.segs = [bytes(x) for x in segs if x]
+        self.calls = 0
+
+    def readable(self):
+        return True
+
+    def readinto(self, b):
+        self.calls += 1
+        if self.calls > 64:
+            raise Horizon()
+        if not self.segs:
+            return 0
+        seg = self.segs[0]
+        n = min(len(b), len(seg))
+        b[:n] = seg[:n]
+        if n == len(seg):
+            self.segs.pop(0)
+        else:
+            self.segs[0] = seg[n:]
+        return n
+
+
+class FedSocket(socket.socket):
+    """The reading end of a real socketpair whose peer sends the next segment
+    exactly when this end asks the kernel for data, and shuts down after the
+    last: every recv sees one segment, deterministically."""
+
+    def arm(self, peer, segs):
+        self.peer, self.todo, self.calls = peer, [x for x in segs if x], 0
+
+    def recv_into(self, *a, **kw):
+        self.calls += 1
+        if self.calls > 64:
+            raise Horizon()
+        if self.todo:
+            self.peer.sendall(self.todo.pop(0))
+        elif self.peer is not None:
+            self.peer.shutdown(socket.SHUT_WR)
+            self.peer.close()
+            self.peer = None
+        return socket.socket.recv_into(self, *a, **kw)
+
+
+STREAM_KINDS = ('buffered', 'raw', 'socket-buffered', 'socket-unbuffered')
+
+
+def open_stream(kind, segs):
+    """-> (file object to decode from, raw object with .calls, close())"""
+    if kind in ('buffered', 'raw'):
+        raw = SegRaw(segs)
+        f = io.BufferedReader(raw) if kind == 'buffered' else raw
+        return f, raw, f.close
+    a, b = socket.socketpair()
+    fs = FedSocket(a.family, a.type, a.proto, fileno=a.detach())
+    fs.settimeout(20)
+    fs.arm(b, segs)
+    f = fs.makefile('rb') if kind == 'socket-buffered' else \
+        fs.makefile('rb', 0)
+
+    def close():
+        f.close()
+        fs.close()
+        if fs.peer is not None:
+            fs.peer.close()
+    return f, fs, close
+
+
+def split(data, lens):
+    out, i = [], 0
+    for n in lens:
+        out.append(data[i:i + n])
+        i += n
+    if i != len(data):
+        raise ToolError('segmentation %r does not cover %d bytes'
+                        % (lens, len(data)))
+    return out
+
+
+def check_decode(ctx, tname, data, counting=False, stream=None, lens=None):
+    """stream: None (BytesIO / the counting stream) or one of STREAM_KINDS
+    with lens = the segment lengths the bytes are handed out in."""
     T = types()[tname]
     exp = expect(data, T.max_bytes)
-    s = CountingStream(data) if counting else io.BytesIO(data)
+    close = None
+    if stream is None:
+        s = CountingStream(data) if counting else io.BytesIO(data)
+    else:
+        s, raw, close = open_stream(stream, split(data, lens))
     try:
-        got = ('value', T.read(s))
-    except Horizon:
-        got = ('horizon',)
-    except Exception as e:
-        got = ('raise', type(e).__name__)
-    pos = (s.b if counting else s).tell()
+        try:
+            got = ('value', T.read(s))
+        except Horizon:
+            got = ('horizon',)
+        except Exception as e:
+            got = ('raise', type(e).__name__)
+        if stream is None:
+            pos = (s.b if counting else s).tell()
+        else:
+            raw.calls = -(1 << 30)
+            rest = b''
+            while True:
+                more = s.read(1 << 16)
+                if not more:
+                    break
+                rest += more
+            if not data.endswith(rest):
+                raise ToolError('stream %s %r of %s returned %s after the '
+                                'decode' % (stream, lens, data.hex(),
+                                            rest.hex()))
+            pos = len(data) - len(rest)
+    finally:
+        if close is not None:
+            close()
     case = {'op': 'decode', 'type': tname, 'data': data}
     key = 'decode %s %s' % (tname, data[:14].hex())
+    via = ''
+    if stream is not None:
+        case.update(stream=stream, lens=list(lens))
+        key += ' from %s stream' % stream
+        via = ' [%s stream handing out %s]' % (
+            stream, ' | '.join(x.hex() for x in split(data, lens)) or 'EOF')
     ctx.outcome('%s:%s' % (got[0], got[1] if got[0] == 'raise' else ''))
     if pos > T.max_bytes + 1 or got[0] == 'horizon':
-        ctx.violation(key, '%s.read consumed %d bytes (> %d) from %s'
-                      % (tname, pos, T.max_bytes + 1, data.hex()), case)
+        ctx.violation(key, '%s.read consumed %d bytes (> %d) from %s%s'
+                      % (tname, pos, T.max_bytes + 1, data.hex(), via), case)
         return
     if exp[0] == 'raise':
         if got[0] != 'raise':
-            ctx.violation(key, '%s.read(%s) returned %r, must raise'
-                          % (tname, data.hex(), got[1:]), case)
+            ctx.violation(key, '%s.read(%s)%s returned %r, must raise'
+                          % (tname, data.hex(), via, got[1:]), case)
         return
     if got[0] == 'raise':
         if exp[0] == 'value':
-            ctx.violation(key, '%s.read(%s) raised %s, expected %d'
-                          % (tname, data.hex(), got[1], exp[1]), case)
+            ctx.violation(key, '%s.read(%s)%s raised %s, expected %d'
+                          % (tname, data.hex(), via, got[1], exp[1]), case)
         return
     v = got[1]
     if isinstance(v, bool) or not isinstance(v, int) or v < 0 or v != exp[1]:
-        ctx.violation(key, '%s.read(%s) = %r, expected %d'
-                      % (tname, data.hex(), v, exp[1]), case)
+        ctx.violation(key, '%s.read(%s)%s = %r, expected %d'
+                      % (tname, data.hex(), via, v, exp[1]), case)
     elif pos != exp[2]:
-        ctx.violation(key, '%s.read(%s) left the cursor at %d, expected %d'
-                      % (tname, data.hex(), pos, exp[2]), case)
+        ctx.violation(key, '%s.read(%s)%s left the cursor at %d, expected %d'
+                      % (tname, data.hex(), via, pos, exp[2]), case)
 
 
 class Sink(object):
@@ -225,8 +368,244 @@ def w_encode_range(ctx, task):
     ctx.note_distinct(hi - lo)
 
 
+# -- stream kinds ---------------------------------------------------------------
+
+SENTINEL = b'\xa5'
+
+
+def compositions(n):
+    """All 2^(n-1) ways to cut n bytes into non-empty segments (n = 0: the
+    one empty segmentation)."""
+    if n == 0:
+        yield ()
+        return
+    for mask in range(1 << (n - 1)):
+        lens, run = [], 1
+        for i in range(n - 1):
+            if mask >> i & 1:
+                lens.append(run)
+                run = 1
+            else:
+                run += 1
+        lens.append(run)
+        yield tuple(lens)
+
+
+def uniform(L, septet, term=True):
+    body = bytes([0x80 | septet]) * L
+    return body[:-1] + bytes([septet]) if term else body
+
+
+def stream_cases(kind, thorough):
+    """(data, segment lengths, class label), each once."""
+    seen = set()
+
+    def put(data, lens, label):
+        k = (data, lens)
+        if k not in seen:
+            seen.add(k)
+            out.append((data, lens, label))
+    out = []
+    sock = kind.startswith('socket')
+    for septet in ((0x7F,) if sock else (0x7F, 0x01, 0x55)):
+        for L in range(1, 7):
+            enc = uniform(L, septet)
+            for lens in compositions(L + 1):
+                put(enc + SENTINEL, lens,
+                    'segment boundary inside the number'
+                    if lens[0] < L else 'number within the first segment')
+            for k in range(L):
+                for lens in compositions(k):
+                    put(enc[:k], lens, 'truncated number on a segmented '
+                                       'stream' if k else 'empty stream')
+    if sock:
+        long_shapes = [(uniform(L, 0x7F, t), t) for L in (10, 11)
+                       for t in (True, False)]
+    elif thorough:
+        long_shapes = list(shapes())
+    else:
+        long_shapes = [(uniform(L, p, t), t) for L in range(7, 14)
+                       for p in (0x00, 0x01, 0x7F) for t in (True, False)]
+    for sh, term in long_shapes:
+        data = sh + SENTINEL
+        for cut in range(1, len(data)):
+            put(data, (cut, len(data) - cut),
+                'long shape cut in two segments')
+        put(data, (len(data),), 'long shape in one segment')
+    return out
+
+
+def w_streams(ctx, task):
+    tname, kind = task
+    for data, lens, label in stream_cases(kind, ctx.thorough):
+        ctx.count()
+        if data:
+            ctx.note_distinct(1)
+        check_decode(ctx, tname, data, stream=kind, lens=lens)
+        ctx.cls('%s stream: %s' % (kind, label))
+    ctx.cls('stream kind %s' % kind)
+
+
+# -- concurrent encoders / decoders ---------------------------------------------
+# Nothing in VarInt/VarLong is meant to be shared between two calls.  Every
+# pair of the operations below is run by two threads with every source line
+# of the wire-type module a scheduling point (vf/interleave.py); in every
+# schedule each thread must observe the reference result.
+
+RACE_MODULES = ('minecraft.networking.types.basic',
+                'minecraft.networking.types.utility')
+RACE_OPS = [
+    ('send', 'VarInt', 300), ('send', 'VarInt', (1 << 32) - 1),
+    ('send', 'VarLong', (1 << 40) + 3), ('send', 'VarLong', (1 << 64) - 1),
+    ('read', 'VarInt', 'ac02'), ('read', 'VarInt', 'feffffff0f'),
+    ('read', 'VarLong', '8380808080200a'),
+    ('read', 'VarLong', 'ffffffffffffffffff01'),
+    ('size', 'VarInt', 300), ('size', 'VarInt', 1 << 31),
+    ('size', 'VarLong', (1 << 62) + 1),
+]
+
+
+class RaceSink(object):
+    """Observes a send twice: copies the data at the moment of the call, and
+    keeps the object itself to read it when the operation has returned (a
+    transport may consume the buffer later)."""
+
+    def __init__(self):
+        self.now, self.kept = [], []
+
+    def send(self, data):
+        self.now.append(bytes(data))
+        self.kept.append(data)
+        if len(self.now) > 64:
+            raise ValueError('more than 64 send calls')
+
+    def observed(self):
+        return (b''.join(self.now).hex(),
+                b''.join(bytes(k) for k in self.kept).hex())
+
+
+def race_reference(op):
+    kind, tname, arg = op
+    if kind == 'send':
+        return ('ok', (ref.varnum(arg).hex(),) * 2)
+    if kind == 'size':
+        return ('ok', len(ref.varnum(arg)))
+    data = bytes.fromhex(arg) + SENTINEL
+    exp = expect(data, 5 if tname == 'VarInt' else 10)
+    if exp[0] != 'value':
+        raise ToolError('race read operand %s is not a plain encoding' % arg)
+    return ('ok', (exp[1], exp[2]))
+
+
+def race_op(op):
+    kind, tname, arg = op
+    T = types()[tname]
+
+    def send():
+        sink = RaceSink()
+        T.send(arg, sink)
+        return sink.observed()
+
+    def size():
+        return T.size(arg)
+
+    def read():
+        s = io.BytesIO(bytes.fromhex(arg) + SENTINEL)
+        v = T.read(s)
+        return (v, s.tell())
+    return {'send': send, 'size': size, 'read': read}[kind]
+
+
+def _tries(ops):
+    out = []
+    for f in ops:
+        try:
+            out.append(('ok', f()))
+        except Exception as e:
+            out.append(('exc', '%s: %s' % (type(e).__name__, e)))
+    return out
+
+
+def race_body(W, params):
+    ops = [race_op(o) for o in params['ops']]
+    want = [race_reference(o) for o in params['ops']]
+    alone = _tries(ops)
+    got = interleave.race(W, ops)
+    again = _tries(ops)
+    viol = []
+    for i, o in enumerate(params['ops']):
+        what = '%s.%s' % (o[1], o[0])
+        other = params['ops'][1 - i]
+        note = ' (a send is observed as (bytes copied at each socket.send() ' \
+            'call, objects passed to send() read after the operation ' \
+            'returned))' if o[0] == 'send' else ''
+        if got[i] != want[i]:
+            viol.append(('concurrent %s differs' % what,
+                         '%s(%s) run concurrently with %s.%s(%s) gave %r; '
+                         'the reference says %r, alone it gave %r%s'
+                         % (what, o[2], other[1], other[0], other[2],
+                            got[i], want[i], alone[i], note)))
+        if alone[i] != want[i]:
+            viol.append(('before concurrent use %s differs' % what,
+                         '%s(%s) alone gave %r, the reference says %r%s'
+                         % (what, o[2], alone[i], want[i], note)))
+        elif again[i] != want[i]:
+            viol.append(('after concurrent use %s differs' % what,
+                         '%s(%s) gives %r after the concurrent run, %r '
+                         'before%s' % (what, o[2], again[i], alone[i], note)))
+    return {'outcome': tuple(got), 'violations': viol}
+
+
+def race_factory(params):
+    def scenario(prefix, expect, visited=None, budget=0):
+        return interleave.run(lambda W: race_body(W, params), prefix, expect,
+                              budget, modules=RACE_MODULES)
+    return scenario
+
+
+def run_races(ctx, ex):
+    bound = 2 if ctx.thorough else 1
+    pairs = [(i, j) for i in range(len(RACE_OPS))
+             for j in range(i + 1, len(RACE_OPS))]
+    execs = 0
+    for i, j in pairs:
+        res = ex.explore(ctx, race_factory,
+                         {'ops': [list(RACE_OPS[i]), list(RACE_OPS[j])]},
+                         bound, label='race ')
+        execs += res.execs
+        ctx.cls('concurrent pair of VarInt/VarLong calls, all schedules')
+        if RACE_OPS[i][:2] == RACE_OPS[j][:2]:
+            ctx.cls('concurrent pair: same operation, two values')
+    ctx.extra['concurrent'] = {
+        'operations': len(RACE_OPS), 'pairs': len(pairs),
+        'preemption_bound': bound, 'schedules_executed': execs,
+        'points': 'every source line of ' + ', '.join(RACE_MODULES)}
+
+
+REQUIRED_CLASSES = [
+    'stream kind buffered', 'stream kind raw', 'stream kind socket-buffered',
+    'stream kind socket-unbuffered',
+    'buffered stream: segment boundary inside the number',
+    'buffered stream: truncated number on a segmented stream',
+    'buffered stream: long shape cut in two segments',
+    'raw stream: segment boundary inside the number',
+    'socket-buffered stream: segment boundary inside the number',
+    'socket-buffered stream: truncated number on a segmented stream',
+    'socket-unbuffered stream: segment boundary inside the number',
+    'negative',
+]
+
+
 def run(ctx):
     use_repo()
+    ex = explore.Explorer(memo=False)    # forks its workers before anything runs
+    try:
+        _run(ctx, ex)
+    finally:
+        ex.close()
+
+
+def _run(ctx, ex):
     maxlen = 3 if ctx.thorough else 2
     tasks = []
     for tname in ('VarInt', 'VarLong'):
@@ -253,6 +632,12 @@ def run(ctx):
                 'expect': expect(bytes.fromhex('ffffffff0f00'), 5)})
     ctx.sample({'decode': '80*6 (over-long)', 'type': 'VarInt',
                 'expect': expect(b'\x80' * 6, 5)})
+    # every kind of stream, every segmentation
+    ctx.pmap(w_streams, [(t, k) for t in ('VarInt', 'VarLong')
+                         for k in STREAM_KINDS])
+    ctx.sample({'decode': 'ac 02 | a5 from a buffered stream in the '
+                          'segments ac | 02 a5', 'type': 'VarInt',
+                'expect': expect(bytes.fromhex('ac02a5'), 5)})
     # encoding
     top = 1 << (21 if ctx.thorough else 16)
     step = top // 64
@@ -280,12 +665,31 @@ def run(ctx):
     ctx.sample({'encode': 300, 'canonical': ref.varnum(300)})
     ctx.extra['decode_max_string_length'] = maxlen
     ctx.extra['encode_exhaustive_below'] = top
+    if not ctx.violations:
+        run_races(ctx, ex)
+    for c in REQUIRED_CLASSES:
+        if not ctx.classes.get(c):
+            raise ToolError('vacuity guard: class %r was never exercised' % c)
 
 
 def replay(ctx, case):
     use_repo()
     ctx.count()
+    if 'choices' in case:
+        x = race_factory(case['params'])(list(case['choices']), None, None,
+                                         'replay')
+        res = x.result or {}
+        viol = list(res.get('violations', ()))
+        if x.failure is not None:
+            viol.append((x.failure[0], '%s: %s' % x.failure))
+        for key, what in viol:
+            ctx.violation('race %s' % key, what, case)
+        return
     if case['op'] == 'decode':
-        check_decode(ctx, case['type'], case['data'], counting=True)
+        if case.get('stream'):
+            check_decode(ctx, case['type'], case['data'],
+                         stream=case['stream'], lens=tuple(case['lens']))
+        else:
+            check_decode(ctx, case['type'], case['data'], counting=True)
     else:
         check_encode(ctx, case['type'], int(case['n']), traced=True)
